@@ -183,7 +183,10 @@ Definition close_ok (pre : sys) (fired : bool) (n_acks n_closes : N) (post : sys
      (dropped_total (sessions post) <? dropped_total (sessions pre))%nat
      && (n_acks + n_closes <=? 1)
      && (if n_closes =? 1 then (length (sessions post) <? length (sessions pre))%nat
-         else (length (sessions post) =? length (sessions pre))%nat)
+         else (length (sessions post) =? length (sessions pre))%nat
+              (* an ephemeral group session goes with its last exchange, silently *)
+              || (existsb s_group (sessions pre) && (n_acks =? 0)
+                  && (S (length (sessions post)) =? length (sessions pre))%nat))
    else (n_acks + n_closes =? 0)).
 
 (** Exchange::drop: an exchange that still owes an acknowledgement or still has
